@@ -20,7 +20,7 @@ package webhook
 // code decides through Retrier.Check (2xx success, 5xx and configured codes recoverable, the rest final).
 // The template data is built from the batch after max_alerts truncation.
 //@ func (*Notifier).Notify
-//@   props C20
+//@   props C20 C05
 //@   nosafe
 //@   abstract
 //@   requires n != nil && n.conf != nil && n.retrier != nil
